@@ -818,8 +818,37 @@ func (p *c28Pair) mutate(op *scn.Op, newMsg func() proto.Message) string {
 			}
 			return "7"
 		}
+		// control: one member of each of two DIFFERENT oneofs is fine and must be accepted
+		var other protoreflect.FieldDescriptor
+		for i := 0; i < md.Oneofs().Len(); i++ {
+			o2 := md.Oneofs().Get(i)
+			if o2 == od || o2.IsSynthetic() {
+				continue
+			}
+			for j := 0; j < o2.Fields().Len(); j++ {
+				if f := o2.Fields().Get(j); f.Kind() == protoreflect.Uint32Kind || f.Kind() == protoreflect.StringKind || f.Kind() == protoreflect.BoolKind || f.Kind() == protoreflect.Uint64Kind {
+					other = f
+				}
+			}
+		}
 		scratch := newMsg()
 		var err error
+		if other != nil && r.Chance(1, 3) {
+			if op.Op == "json-two-members" {
+				in := fmt.Sprintf(`{"%s": %s, "%s": %s}`, a.JSONName(), lit(a, true), other.JSONName(), lit(other, true))
+				err = protojson.Unmarshal([]byte(in), scratch)
+			} else {
+				in := fmt.Sprintf("%s: %s\n%s: %s\n", a.TextName(), lit(a, false), other.TextName(), lit(other, false))
+				err = prototext.Unmarshal([]byte(in), scratch)
+			}
+			if err != nil {
+				return "oneof: " + op.Op + ": input naming one member of each of two different oneofs was rejected: " + err.Error()
+			}
+			if !scratch.ProtoReflect().Has(a) || !scratch.ProtoReflect().Has(other) {
+				return "oneof: " + op.Op + ": members of two different oneofs: one of them is not populated after decoding"
+			}
+			return ""
+		}
 		if op.Op == "json-two-members" {
 			in := fmt.Sprintf(`{"%s": %s, "%s": %s}`, a.JSONName(), lit(a, true), b.JSONName(), lit(b, true))
 			err = protojson.Unmarshal([]byte(in), scratch)
